@@ -8,20 +8,51 @@ Open Scope N_scope.
 
 (* SecRuleRemoveById / ByTag / ByMsg = the configuration that never contained the rules
    (id lists and ranges that do not cover id 0, see C17_remove_id_zero_refuted) *)
-Theorem C17_remove_equiv : forall rx dflt src c d c' rq,
+Theorem C17_remove_equiv_partial : forall rx dflt src c d c' rq,
   cf_compile dflt src = Some c -> is_remove d = true -> zero_free d = true -> cf_apply d c = Some c' ->
   exists c'', cf_compile dflt (cf_rewrite d src) = Some c'' /\ cf_outcome rx c' rq = cf_outcome rx c'' rq.
 Proof. exact remove_equiv. Qed.
-Print Assumptions C17_remove_equiv.
+Print Assumptions C17_remove_equiv_partial.
 
-(* SecRuleUpdateTargetById / ByTag = the rule written with the added targets and exclusions *)
-Theorem C17_update_target_equiv : forall rx dflt src c d c' rq,
+(* the tag and message forms need no guard *)
+Theorem C17_remove_by_tag_msg_equiv : forall rx dflt src c d c' rq,
+  cf_compile dflt src = Some c -> (exists t, d = DRemoveByTag t) \/ (exists m, d = DRemoveByMsg m) ->
+  cf_apply d c = Some c' ->
+  exists c'', cf_compile dflt (cf_rewrite d src) = Some c'' /\ cf_outcome rx c' rq = cf_outcome rx c'' rq.
+Proof. exact remove_by_tag_msg_equiv. Qed.
+Print Assumptions C17_remove_by_tag_msg_equiv.
+
+Theorem C17_remove_guard_instance :
+  exists c c', cf_compile w_dflt w0_src = Some c /\ zero_free (DRemoveById [IdRange 5 6; IdOne 9]) = true /\
+    cf_apply (DRemoveById [IdRange 5 6; IdOne 9]) c = Some c' /\
+    cf_outcome simple_rx c' w_req = ([(7, [(VArgs, str "a"%string, str "x"%string)])], None).
+Proof. exact remove_guard_instance. Qed.
+Print Assumptions C17_remove_guard_instance.
+
+(* SecRuleUpdateTargetById / ByTag = the rule written with the added targets and exclusions
+   (the id form is proved for id fields not covering 0: a SecMarker in the range would gain unused variables) *)
+Theorem C17_update_target_equiv_partial : forall rx dflt src c d c' rq,
   cf_compile dflt src = Some c -> zero_free d = true ->
   (exists l items, d = DUpdTargetById l items) \/ (exists t items, d = DUpdTargetByTag t items) ->
   cf_apply d c = Some c' ->
   exists c'', cf_compile dflt (cf_rewrite d src) = Some c'' /\ cf_outcome rx c' rq = cf_outcome rx c'' rq.
 Proof. exact update_target_equiv. Qed.
-Print Assumptions C17_update_target_equiv.
+Print Assumptions C17_update_target_equiv_partial.
+
+Theorem C17_update_target_by_tag_equiv : forall rx dflt src c t items c' rq,
+  cf_compile dflt src = Some c -> cf_apply (DUpdTargetByTag t items) c = Some c' ->
+  exists c'', cf_compile dflt (cf_rewrite (DUpdTargetByTag t items) src) = Some c'' /\
+              cf_outcome rx c' rq = cf_outcome rx c'' rq.
+Proof. exact update_target_by_tag_equiv. Qed.
+Print Assumptions C17_update_target_by_tag_equiv.
+
+Theorem C17_update_target_guard_instance :
+  exists c c', cf_compile w_dflt w0_src = Some c /\
+    zero_free (DUpdTargetById [IdOne 6; IdOne 7] [TNeg VArgs (KStr (str "a"%string)); TPos false VMethod KNone]) = true /\
+    cf_apply (DUpdTargetById [IdOne 6; IdOne 7] [TNeg VArgs (KStr (str "a"%string)); TPos false VMethod KNone]) c = Some c' /\
+    cf_outcome simple_rx c' w_req = ([(5, [(VMethod, [], str "GET"%string)])], None).
+Proof. exact update_target_guard_instance. Qed.
+Print Assumptions C17_update_target_guard_instance.
 
 (* what the written exclusion means: no entry hit by it is selected by a target of that variable *)
 Theorem C17_update_target_excludes : forall rx v k l ecol rq cv m,
